@@ -38,11 +38,11 @@ type opStat struct {
 }
 
 type opCase struct {
-	op      string
-	args    []tla.Value
-	tlaCall string // Op(args) as TLA+ text
-	goVal   string // printed value ("" if the Go panicked)
-	goErr   string
+	op                  string
+	args                []tla.Value
+	tlaCall             string // Op(args) as TLA+ text
+	goVal               string // printed value ("" if the Go panicked)
+	goErr               string
 	compare, compareWhy string
 }
 
